@@ -133,6 +133,37 @@ func (c *PyClass) Methods() []*PyFunc {
 	return out
 }
 
+// StarOnlyDefs counts the defs whose parameter list has no plain parameter in front of `*args` / `**kwargs`:
+// module-level functions, methods, and defs nested in either.
+func (m *PyModule) StarOnlyDefs() (top, method, nested int) {
+	var inner func(f *PyFunc)
+	inner = func(f *PyFunc) {
+		for _, s := range f.Body {
+			if s.Def != nil {
+				if pyStarOnly(s.Def.Params) {
+					nested++
+				}
+				inner(s.Def)
+			}
+		}
+	}
+	for _, f := range m.Funcs() {
+		if pyStarOnly(f.Params) {
+			top++
+		}
+		inner(f)
+	}
+	for _, c := range m.Classes() {
+		for _, me := range c.Methods() {
+			if pyStarOnly(me.Params) {
+				method++
+			}
+			inner(me)
+		}
+	}
+	return
+}
+
 // NestedNames returns the names of all defs nested (at any depth) in f.
 func (f *PyFunc) NestedNames() []string {
 	var out []string
@@ -268,7 +299,14 @@ func (g *pyGen) decos(max int) []PyDeco {
 	return ds
 }
 
-var pyParamSets = []string{"", "a", "a, b", "a, b=1", "x, *args", "x, **kw", "a, *args, **kw", "a: int", "a: int, b: str = \"q\"", "*, key=None", "items, n=0"}
+var pyParamSets = []string{"", "a", "a, b", "a, b=1", "x, *args", "x, **kw", "a, *args, **kw", "a: int", "a: int, b: str = \"q\"", "*, key=None", "items, n=0",
+	// parameter lists without a leading plain parameter (the forwarding wrapper of a decorator, option bags)
+	"*args, **kwargs", "*args", "**kwargs", "*a", "**kw", "*, key", "*args, key=None, **kw", "*items: int", "**options: str"}
+
+// pyStarOnly: the parameter list starts with `*name` / `**name` (no plain parameter, no bare `*`, in front).
+func pyStarOnly(params string) bool {
+	return strings.HasPrefix(params, "*") && !strings.HasPrefix(params, "*,")
+}
 
 func (g *pyGen) simpleStmt(method bool) string {
 	r := g.r
@@ -319,7 +357,9 @@ func (g *pyGen) funcDef(method bool, depthLeft int, maxBody int, allowNested boo
 	f.Params = r.Pick(pyParamSets)
 	if method {
 		self := r.Pick([]string{"self", "self", "self", "cls"})
-		if f.Params == "" || strings.HasPrefix(f.Params, "*,") {
+		if pyStarOnly(f.Params) && r.Bool() {
+			// a method that takes whatever it is given (static / forwarding method): no self in front
+		} else if f.Params == "" || strings.HasPrefix(f.Params, "*,") {
 			if f.Params == "" {
 				f.Params = self
 			} else {
@@ -855,7 +895,7 @@ func (m *PyModule) Shape() string {
 	fmt.Fprintf(&sb, "ind%q crlf%v nl%v flat%v blank%v trail%d long%v|", m.Indent, m.CRLF, m.NoFinalNL, m.Flat, m.BlankInBlocks, len(m.TrailIndent), m.LongLine)
 	var fn func(f *PyFunc)
 	fn = func(f *PyFunc) {
-		fmt.Fprintf(&sb, "f(d%d a%v o%v p%d:", len(f.Decos), f.Async, f.OneLine, strings.Count(f.Params, ","))
+		fmt.Fprintf(&sb, "f(d%d a%v o%v p%d%v:", len(f.Decos), f.Async, f.OneLine, strings.Count(f.Params, ","), pyStarOnly(f.Params))
 		for _, s := range f.Body {
 			if s.Def != nil {
 				fn(s.Def)
